@@ -26,7 +26,11 @@ VH_MAIN_BEGIN
     size_t destbos = (in.bos_known & 1) ? DOBJ * sizeof(wchar_t) : BOS_UNKNOWN;
     set_str_constraint_handler_s(vh_handler);
     rsize_t len = 0x7777;
-#ifdef DECOMP_ONLY /* the first stage alone (public wcsnorm_decompose_s): canonical decomposition without reordering */
+#ifdef COMPOSE_ONLY /* the last stage alone (public wcsnorm_compose_s) on the canonically ordered NFD string */
+    len = sh_nfd_len[SIDX];
+    errno_t rc = _wcsnorm_compose_s_chk(dest, dmax, sh_nfd[SIDX], &len, false, destbos);
+    in.len_null = 0;
+#elif defined(DECOMP_ONLY) /* the first stage alone (public wcsnorm_decompose_s): canonical decomposition without reordering */
     errno_t rc = _wcsnorm_decompose_s_chk(dest, dmax, src, (in.len_null & 1) ? (rsize_t *)0 : &len, false, destbos);
 #else
     errno_t rc = _wcsnorm_s_chk(dest, dmax, src, MODE == 0 ? WCSNORM_NFD : WCSNORM_NFC, (in.len_null & 1) ? (rsize_t *)0 : &len, destbos);
@@ -37,7 +41,7 @@ VH_MAIN_BEGIN
     if (rc == EOK) {
         CHECK("C05", vh_h_count == 0, "handler invoked although the call succeeded");
         CHECK("C17", wl + 1 <= dmax, "result does not fit but success returned (shortened result)");
-#ifndef DECOMP_ONLY
+#if !defined(DECOMP_ONLY)
         for (unsigned i = 0; i < DOBJ; i++) if (i <= wl) CHECK("C17", dest[i] == want[i], "result differs from the UAX #15 normalisation form");
 #endif
         if (!(in.len_null & 1)) CHECK("C17", len == wl, "reported length differs");
